@@ -30,7 +30,7 @@ ASSUMPTIONS = ["header lines are ASCII (the code trims Unicode white space of a 
                "parser_complete / pushed_complete / no_record_lost: the first line starts with '>' or is blank "
                "(otherwise the code takes it as a header: first_line_is_a_header_refuted)",
                "extraction_normal_form: no byte 91..96 / 123..127 in sequence lines (outside the property's alphabet; "
-               "they are kept and read back as N, the backquote via code 32: odd_bytes_read_back_as_N)"]
+               "they are kept and read back as N: odd_bytes_read_back_as_N)"]
 IUPAC = b"ACGTNRYSWKMBDHVU"
 CODE = {c: i for i, c in enumerate(IUPAC)}
 WS = (9, 10, 11, 12, 13, 32)
@@ -309,7 +309,8 @@ def gen_cli_cases(rng, n):
     cs = []
     ref_plain = wrap_text(b"ref1", bytes(rng.choice(b"ACGT") for _ in range(400))) + b">ref2\nACGTNNRY\n"
     # outside the property's alphabet, run for agreement: the kept non-letters inside LZ-coded segments
-    # ([ \\ ] ^ _ { | } ~ DEL -> code 30 -> N; the backquote -> code 32)
+    # ([ \\ ] ^ _ ` { | } ~ DEL -> code 30 -> N; the backquote alone is the regression case of 1a45edb: its table
+    # entry was the filler 32, which the LZ decoder could not read back)
     for odd in (b"[\\]^_{|}~\x7f", b"`"):
         base = bytes(rng.choice(b"ACGT") for _ in range(300))
         cs.append(f"cli {params(rng)} " + ftok(b"r.fa", wrap_text(b"c1", base)) + " "
